@@ -25,23 +25,28 @@ for op in _wide + _narrow:
                       bounds="unwind 4; %s" % ("left kind fixed, 5 right kinds" if op in _wide else "9 kind pairs {Null,Int,'a'}^2"),
                       functions=["expr::Expr::binop", "expr::BinOp::eval"]))
 for n in ["c13_ordering_consistent", "c13_unop_neg", "c13_unop_bitnot", "c13_unop_boolnot", "c13_and_or",
-          "c13_and_or_literal_a", "c13_and_or_literal_b", "c13_short_circuit", "c13_mul_exact16", "c13_div_exact16",
-          "c13_unop_twice_neg_neg", "c13_unop_twice_bitnot_bitnot", "c13_unop_twice_not_not", "c13_unop_twice_neg_bitnot",
-          "c13_unop_twice_not_neg", "c13_unop_twice_bitnot_not"]:
+          "c13_and_or_literal_a", "c13_and_or_literal_b", "c13_short_circuit", "c13_mul_exact16", "c13_div_exact16"]:
     _c13.append(H("proofs::c13::" + n, timeout=900, symbolic="operand Values as above (exact16: both operands any i16)",
                   bounds="unwind 4", functions=["expr::UnOp::eval", "expr::Ast::eval", "expr::Expr::unop"]))
 PROPS["C13"] = {
     "level": "model_checking",
-    "engine": "kani",
+    "engine": "kani", "mir": True,
     "claim": "Bounded model checking of the compiled expression code: every one of the 18 operators, applied once "
              "to symbolic operand values (full 32-bit integers, Null, three strings), never panics and agrees with a "
              "reference operator table, both lazily (Ast::eval on a row) and when constant-folded at construction. "
-             "Not a proof: exactness of * and / is decided for 16-bit operands only; deeper trees follow by the "
-             "stated structural induction, which the solver does not check.",
+             "Engine M adds the structural half of the induction over tree height: for every combination of operand node "
+             "kinds the constructors Expr::unop/binop/and/or fold to Literal(op.eval(..)) exactly when all operands of "
+             "unop/binop are literals and otherwise build the operator node over the UNCHANGED operand trees (and/or never "
+             "fold). Not a proof: exactness of * and / is decided for 16-bit operands only; the induction itself "
+             "(single-node semantics + structure preservation => any depth) is on paper. The structural law is sufficient, "
+             "not necessary: a semantics-preserving rewrite at construction time makes the check inconclusive (exit 2, its "
+             "native replay finds no differing evaluation), never a VIOLATION.",
     "note": "Trusted: Kani's model of the dev profile, CBMC/CaDiCaL, the reference table in kani/src/proofs/c13.rs. "
             "Outside: trees deeper than one operator, executor loops, arbitrary string contents.",
     "technique": "bounded model checking (Kani/CBMC, CaDiCaL) of Expr construction + Ast::eval, one operator "
-                 "application over symbolic operand values, against a reference operator table",
+                 "application over symbolic operand values, against a reference operator table; symbolic execution of the MIR "
+                 "of the four constructors over all operand-kind combinations (engine M), counterexamples replayed by a native "
+                 "literal-versus-column differential evaluation",
     "kani": _c13,
     "bounds": "one operator application (induction over tree height is the stated paper step); integers full "
               "32-bit except exactness of * and / (16-bit operands); strings from {'', 'a', 'b'}",
